@@ -159,6 +159,15 @@ def handle (line : String) : String :=
       | some _ => "returns"
       | none => "never-returns"
     | none => "bad-op"
+  | ["renametail", tail, ring] =>
+    -- a name no schema declares, looked up from the head of a tail of `tail` schemas that leads into a ring of `ring` schemas
+    match tail.toNat?, ring.toNat? with
+    | some t, some r =>
+      if r == 0 then "bad-op"
+      else match renameSearchG renameSearchGuardKind (tailRing t r) (t + r + 2) none [] 0 with
+        | some _ => "returns"
+        | none => "never-returns"
+    | _, _ => "bad-op"
   | ["nesting", kind, n] =>
     match n.toNat?, nestingLimits.lookup (kind.replace "_" " ") with
     | some n, some lim =>
